@@ -55,6 +55,55 @@ def root_pair(rng):
     return trusted, u
 
 
+def directed_pair(rng):
+    """key-set relation (same / superset / subset / overlap / disjoint) x which of the two rules the signer set meets, chosen explicitly"""
+    pool = [gen.key(i) for i in rng.sample(range(10), 8)]
+    rel = rng.choice(["same", "superset", "subset", "overlap", "disjoint"])
+    old = pool[: rng.randint(1, 3)]
+    fresh = pool[4: 4 + rng.randint(1, 3)]
+    if rel == "same":
+        new = list(old)
+    elif rel == "superset":
+        new = old + fresh
+    elif rel == "subset":
+        old = pool[:3]
+        new = old[: rng.randint(1, 2)]
+    elif rel == "overlap":
+        new = old[:1] + fresh
+    else:
+        new = fresh
+    old_thr = rng.randint(1, len(old))
+    new_thr = rng.randint(1, len(new))
+    want_old, want_new = rng.choice([(True, True), (True, False), (False, True), (False, False), (True, True)])
+    v = rng.choice([1, 2, 9])
+    t = gen.envelope(gen.root_md(old, old_thr, [gen.key(9)], 1, version=v))
+    u = gen.envelope(gen.root_md(new, new_thr, [gen.key(9)], 1, version=v + 1))
+    old_only = [k for k in old if k not in new]
+    new_only = [k for k in new if k not in old]
+    both = [k for k in old if k in new]
+    # choose signers: as many as possible from the side that must be met, as few as possible from the other
+    signers = []
+    def take(ks, n):
+        return ks[:max(0, n)]
+    if want_old and want_new:
+        signers = take(old, old_thr) + take(new, new_thr)
+    elif want_old:
+        signers = take(old_only + both, old_thr)
+        signers = [k for k in signers]          # may incidentally meet the new rule; the oracle decides
+    elif want_new:
+        signers = take(new_only + both, new_thr)
+    else:
+        signers = take(old_only, old_thr - 1) + take(new_only, new_thr - 1)
+    if not want_old:
+        # keep the number of *trusted* signers below the trusted threshold, but add enough untrusted ones to reach max(threshold)
+        trusted_signers = [k for k in signers if k in old][: old_thr - 1]
+        others = [k for k in signers if k not in old] + [k for k in new_only if k not in signers]
+        signers = trusted_signers + others
+    signers = list({k.hex: k for k in signers}.values())
+    gen.sign_env(u, signers, True, rng)
+    return t, u, f"directed:{rel}:old={want_old}:new={want_new}"
+
+
 def variants(rng, t, u):
     """single semantic edits of a pair"""
     out = []
@@ -99,6 +148,10 @@ def run(ck: Check) -> None:
     rng = ck.rng
     cases = []
     for i in range(3500 if ck.thorough else 600):
+        if i % 3 == 0:
+            t, u, tag = directed_pair(rng)
+            cases.append(Case("vroot", [t, u], tag=tag.split(":old")[0], group=i, meta={"scenario": tag}))
+            continue
         t, u = root_pair(rng)
         vs = variants(rng, t, u)
         if not vs:
